@@ -373,7 +373,9 @@ Why(S, e) ==
                ELSE LET u == E!Mk(e.h, e.p)
                         c == CHOOSE x \in Chains(s.cur, e.m, u) : TRUE
                         st == ReqStatic(e, s.cur, u, c)
-                    IN IF st # "ok" THEN st ELSE WalkDies(s, s.cur, c, e))
+                        wd == WalkDies(s, s.cur, c, e)
+                    IN IF st \in {"not-answered", "undecodable-answer", "S1-number-of-remedies-applied"} THEN st
+                       ELSE IF wd # "ok" THEN wd ELSE st)
          ELSE IF e.ev = "res"
          THEN (IF e.id \notin DOMAIN s.tx THEN "response-of-unknown-transaction"
                ELSE LET t == s.tx[e.id]
